@@ -46,17 +46,25 @@ fn xf_ilossy<S: Fixed, I: Prim + LossyFrom<S>>(op: &str, a: &[&str]) -> String w
 trait XfFloat: Copy { fn bits_str(self) -> String; }
 impl XfFloat for f32 { fn bits_str(self) -> String { if self.is_nan() { "nan".into() } else { format!("{}", self.to_bits()) } } }
 impl XfFloat for f64 { fn bits_str(self) -> String { if self.is_nan() { "nan".into() } else { format!("{}", self.to_bits()) } } }
+impl XfFloat for half::f16 { fn bits_str(self) -> String { if self.is_nan() { "nan".into() } else { format!("{}", self.to_bits()) } } }
+impl XfFloat for half::bf16 { fn bits_str(self) -> String { if self.is_nan() { "nan".into() } else { format!("{}", self.to_bits()) } } }
+#[allow(non_camel_case_types)] type f16 = half::f16;
+#[allow(non_camel_case_types)] type bf16 = half::bf16;
 fn xf_ffrom<S: Fixed, T: XfFloat + From<S>>(a: &[&str]) -> String where S::Bits: Prim {
     let x = S::from_bits(<S::Bits as Prim>::parse(arg(a, 0)));
     T::from(x).bits_str()
 }
-fn xf_flossy<S: Fixed>(op: &str, a: &[&str]) -> String where S::Bits: Prim, f32: LossyFrom<S>, f64: LossyFrom<S> {
+fn xf_flossy<S: Fixed>(op: &str, a: &[&str]) -> String where S::Bits: Prim, f32: LossyFrom<S>, f64: LossyFrom<S>, f16: LossyFrom<S>, bf16: LossyFrom<S> {
     let x = S::from_bits(<S::Bits as Prim>::parse(arg(a, 0)));
     match (op, arg(a, 1)) {
         ("fcvt_lossy", "f32") => f32::lossy_from(x).bits_str(),
         ("fcvt_lossy", "f64") => f64::lossy_from(x).bits_str(),
         ("fcvt_linto", "f32") => LossyInto::<f32>::lossy_into(x).bits_str(),
         ("fcvt_linto", "f64") => LossyInto::<f64>::lossy_into(x).bits_str(),
+        ("fcvt_lossy", "f16") => f16::lossy_from(x).bits_str(),
+        ("fcvt_lossy", "bf16") => bf16::lossy_from(x).bits_str(),
+        ("fcvt_linto", "f16") => LossyInto::<f16>::lossy_into(x).bits_str(),
+        ("fcvt_linto", "bf16") => LossyInto::<bf16>::lossy_into(x).bits_str(),
         _ => "UNKNOWN".to_string(),
     }
 }
@@ -78,6 +86,8 @@ xf_prim_int! { i8, i16, i32, i64, i128, isize, u8, u16, u32, u64, u128, usize }
 impl XfPrim for bool { fn xparse(s: &str) -> bool { match s { "0" => false, "1" => true, _ => bad() } } fn xshow(self) -> String { b01(self).to_string() } }
 impl XfPrim for f32 { fn xparse(s: &str) -> f32 { f32::from_bits(s.parse::<u32>().unwrap_or_else(|_| bad())) } fn xshow(self) -> String { self.bits_str() } }
 impl XfPrim for f64 { fn xparse(s: &str) -> f64 { f64::from_bits(s.parse::<u64>().unwrap_or_else(|_| bad())) } fn xshow(self) -> String { self.bits_str() } }
+impl XfPrim for f16 { fn xparse(s: &str) -> f16 { f16::from_bits(s.parse::<u16>().unwrap_or_else(|_| bad())) } fn xshow(self) -> String { self.bits_str() } }
+impl XfPrim for bf16 { fn xparse(s: &str) -> bf16 { bf16::from_bits(s.parse::<u16>().unwrap_or_else(|_| bad())) } fn xshow(self) -> String { self.bits_str() } }
 fn xf_prim<S: XfPrim, D: XfPrim + LossyFrom<S>>(op: &str, k: &str) -> String {
     let k = S::xparse(k);
     if op == "pcvt_linto" { LossyInto::<D>::lossy_into(k).xshow() } else { D::lossy_from(k).xshow() }
@@ -106,6 +116,13 @@ fn xf_prim_dispatch(op: &str, src: &str, k: &str, dst: &str) -> String {
         usize -> usize f32 f64;
         f32 -> f32 f64;
         f64 -> f64 f32;
+        // the cfg(feature = "f16") rows of convert.rs (688-835)
+        i8 -> bf16 f16; i16 -> bf16 f16; i32 -> bf16 f16; i64 -> bf16 f16; i128 -> bf16 f16; isize -> bf16 f16;
+        u8 -> bf16 f16; u16 -> bf16 f16; u32 -> bf16 f16; u64 -> bf16 f16; u128 -> bf16 f16; usize -> bf16 f16;
+        f16 -> f16 bf16 f32 f64;
+        bf16 -> bf16 f16 f32 f64;
+        f32 -> f16 bf16;
+        f64 -> f16 bf16;
     }
 }
 
